@@ -62,6 +62,22 @@ def regenerate_logic():
         return [("*", "*", "translator crashed: " + (err or out)[-300:])]
 
 
+class lean_lock:
+    """Serialises everything that writes into the lake package (generated files, `lake build`,
+    the axiom audit) across concurrently running checks: concurrent `lake build`s of one
+    package race on the build directory."""
+    def __enter__(self):
+        import fcntl
+        self.f = open(os.path.join(LEAN, ".verif-build.lock"), "w")
+        fcntl.flock(self.f, fcntl.LOCK_EX)
+        return self
+
+    def __exit__(self, *a):
+        import fcntl
+        fcntl.flock(self.f, fcntl.LOCK_UN)
+        self.f.close()
+
+
 def lake_build(targets):
     rc, out, err = run(["lake", "build"] + targets, cwd=LEAN, timeout=3000)
     text = out + err
@@ -751,7 +767,9 @@ def main():
     notes = []
     known = load_known()
 
-    # ---- proof side
+    # ---- proof side (under the package lock: other checks may be running concurrently)
+    _lk = lean_lock()
+    _lk.__enter__()
     okc, consts = regenerate_constants()
     tie_broken = []
     if not okc:
@@ -788,6 +806,7 @@ def main():
 
     # ---- implementation side
     okh, hlog = build_harness()
+    _lk.__exit__()
     if not okh:
         tie_broken.append("harness build failed against /repo (hooks or API changed): " + hlog[-400:])
 
